@@ -1,5 +1,5 @@
 /-
-Model of `FileFilter::create` (src/file_filter.rs 39-120) and of the removal loop of
+Model of `FileFilter::create` (src/file_filter.rs 39-109) and of the removal loop of
 `rewrite_paths` (src/path_rewriting.rs 373-386), plus the specification vocabulary of C16.
 
 Trusted parameters (DESIGN.md section 4): `Regex::is_match` is a per-line Boolean – the model
@@ -75,15 +75,16 @@ def stepFlags (o : Opts) (fl : Flags) (m : Bits) : Flags :=
   let ig := if !ig && hit o.start m.start then true else ig
   ⟨ib, ig⟩
 
-/-- file_filter.rs 93-117: the result of the closure given the updated flags. -/
+/-- file_filter.rs 93-106: the result of the closure given the updated flags.
+`excl = ignore || line-marker`, `excl_br = ignore_br || br-line-marker`, `match (excl, excl_br)`. -/
 def classify (o : Opts) (fl : Flags) (m : Bits) : Kind :=
-  if fl.ignoreBr then
-    if fl.ignore then .both else .branch
-  else if fl.ignore then .line
-  else if hit o.brLine m.brLine then
-    if hit o.line m.line then .both else .branch
-  else if hit o.line m.line then .line
-  else .none
+  let excl := fl.ignore || hit o.line m.line
+  let exclBr := fl.ignoreBr || hit o.brLine m.brLine
+  match excl, exclBr with
+  | true, true => .both
+  | true, false => .line
+  | false, true => .branch
+  | false, false => .none
 
 /-- the per-line results of the single pass, flags threaded from line to line -/
 def scan (o : Opts) : Flags → List Bits → List Kind
